@@ -1,5 +1,6 @@
 import Srtla.Lemmas.ForwardRun
 import Srtla.Lemmas.SendAll
+import Srtla.Lemmas.RunLevelGhost
 import Srtla.Props.C03
 /-!
 # C01 — the uplink path forwards every SRT datagram intact, once, in per-link order
@@ -26,6 +27,8 @@ Vocabulary (definitions in `Lemmas/Forward*.lean`; all are plain functions of th
   by the shell and provably never comes from a queue: in those events a queue is untouched or discarded).
 * `LossCause s ev i l l'` — the four admissible reasons for discarding queued datagrams.
 * `run`, `wireLog`, `arrivals`, `clientItems`, `probeCopies`, `gatedRouted` — per-link logs of a run.
+* `runG`, `ginit`, `G`, `Bins`, `GItem`, `ucount` (`Lemmas/RunLevelGhost.lean`) — the ghost-instrumented run of
+  section 10: fresh tags for accepted datagrams, per-link bins queued / wire / lost, the dropped list.
 
 Not covered: kernel/UDP delivery after `sendmmsg`; partial kernel sends inside one batch (the model's
 batch send is all-or-nothing; see `C01_send_all_complete` for the chunk loop in isolation); tokio timer
@@ -574,5 +577,188 @@ example : @target ℚ ratScalar exSysQ exData 5000 ≠ none := by
     decide
 
 end examples
+
+/-! ## 10. Exactly once over a RUN, with ghost tags -/
+
+open Srtla.Sys.Ghost
+
+/-- The ghost vocabulary, spelled out: `ucount t g` counts the copies of kind `unique` carrying tag `t`
+in the wire bin, the queue mirror and the lost bin of EVERY link, plus the entries for `t` in the
+dropped list; `Bins.probes` counts the probe copies ever enqueued on one link. -/
+theorem C01_ghost_counts_def (t : Nat) (g : G F) (b : Bins) :
+    ucount t g =
+      (g.bins.map fun b => (b.wire ++ b.queued ++ b.lost.map (·.2)).countP
+          (fun x => x.tag == t && decide (x.kind = .unique))).sum +
+        g.dropped.countP (·.1 == t) ∧
+    b.probes = (b.wire ++ b.queued ++ b.lost.map (·.2)).countP (fun x => decide (x.kind = .probe)) :=
+  ⟨rfl, rfl⟩
+
+/-- **The instrumented run projects to `Sys.run`.**  Erasing the ghost: the real component of `runG` is
+the final state of `Sys.run`; there is one set of bins per link; the acceptance log is (what was queued
+initially, then) exactly the non-empty client datagrams of the event list, in order; every link's queue
+mirror erases to its real queue and its wire bin erases to the real wire log of the run (`wireLog`: the
+datagrams the data path put on that link's socket, in order, byte for byte). -/
+theorem C01_ghost_projects (s : Sys F) (h : Inv s) (evs : List Ev) :
+    (runG (ginit s) evs).sys = (run s evs).1 ∧
+    (runG (ginit s) evs).bins.length = s.links.length ∧
+    (runG (ginit s) evs).accepted.map (·.2) = (ginit s).accepted.map (·.2) ++ evs.filterMap accepts ∧
+    ∀ (i : Nat) (b : Bins), (runG (ginit s) evs).bins[i]? = some b →
+      b.queued.map (·.item) = queueOf (run s evs).1 i ∧ b.wire.map (·.bytes) = wireLog s evs i := by
+  have hg := (ginit_inv s h).run evs
+  have hsys : (runG (ginit s) evs).sys = (run s evs).1 := runG_sys _ _
+  refine ⟨hsys, ?_, runG_accepted _ _, fun i b hb => ⟨?_, ?_⟩⟩
+  · rw [hg.len, hsys]; exact run_length s h evs
+  · rw [← hsys]; exact hg.aligned i b hb
+  · obtain ⟨b0, hb0⟩ := runG_bins_get _ _ _ _ hb
+    have := runG_wire (ginit s) (ginit_inv s h) evs i b0 b hb0 hb
+    rw [(ginit_bins s i b0 hb0).1] at this
+    simpa [ginit] using this
+
+/-- **Exactly once, intact, in order — over every run.**  From every state satisfying `Inv`, after every
+event list, in the instrumented run `g = runG (ginit s) evs`:
+1. tags are handed out consecutively in acceptance order (`0, 1, 2, …`), so tag order IS acceptance order;
+2. for every accepted datagram the number of `unique` copies among (wire output so far, all links) ∪
+   (still queued on some link) ∪ (discarded, all links) ∪ (dropped: no link selectable) is EXACTLY ONE;
+3. every copy anywhere — sent, queued or discarded, unique or probe — carries byte for byte the datagram
+   the client sent under its tag, and so does every dropped entry;
+4. on every link the wire order followed by the queue order is strictly increasing tag order: per link,
+   datagrams leave in acceptance order and no tag appears twice on one link;
+5. a probe copy exists only on a link that was stall-gated AND connected (hence not eligible) when it was
+   enqueued, in an established session; the unique copy of an established session was enqueued on a link
+   that was eligible (connected, registered, not timed out, not stall-gated) at that moment;
+6. at most one duplicate per 100 routed data packets per gated uplink: `100 × (probe copies ever enqueued
+   on the link) + final probe counter ≤ (data packets routed elsewhere while the link was stall-gated and
+   connected) + initial probe counter`. -/
+theorem C01_exactly_once_run (s : Sys F) (h : Inv s) (evs : List Ev) :
+    (runG (ginit s) evs).accepted.map (·.1) = List.range (runG (ginit s) evs).next ∧
+    (∀ tb ∈ (runG (ginit s) evs).accepted, ucount tb.1 (runG (ginit s) evs) = 1) ∧
+    (∀ (i : Nat) (b : Bins), (runG (ginit s) evs).bins[i]? = some b →
+      ∀ x ∈ b.all, (x.tag, x.bytes) ∈ (runG (ginit s) evs).accepted) ∧
+    (∀ x ∈ (runG (ginit s) evs).dropped, x ∈ (runG (ginit s) evs).accepted) ∧
+    (∀ (i : Nat) (b : Bins), (runG (ginit s) evs).bins[i]? = some b →
+      (b.wire ++ b.queued).Pairwise (fun x y => x.tag < y.tag)) ∧
+    (∀ (i : Nat) (b : Bins), (runG (ginit s) evs).bins[i]? = some b → ∀ x ∈ b.all,
+      (x.kind = .probe → x.gated = true ∧ x.elig = false ∧ x.estab = true) ∧
+      (x.kind = .unique → x.estab = true → x.elig = true ∧ x.gated = false)) ∧
+    (∀ (i : Nat) (b : Bins), (runG (ginit s) evs).bins[i]? = some b →
+      100 * b.probes + probeCounterOf (run s evs).1 i ≤ gatedRouted s evs i + probeCounterOf s i) := by
+  have hg := (ginit_inv s h).run evs
+  refine ⟨hg.acc, ?_, fun i b hb => (hg.ok i b hb).bytes, hg.dropped, fun i b hb => (hg.ok i b hb).sorted,
+    fun i b hb x hx => ⟨(hg.ok i b hb).probe x hx, (hg.ok i b hb).unique x hx⟩, ?_⟩
+  · intro tb htb
+    apply hg.once
+    have : tb.1 ∈ (runG (ginit s) evs).accepted.map (·.1) := List.mem_map.2 ⟨tb, htb, rfl⟩
+    rw [hg.acc] at this
+    exact List.mem_range.1 this
+  · intro i b hb
+    obtain ⟨b0, hb0⟩ := runG_bins_get _ _ _ _ hb
+    have hp := runG_probes (ginit s) (ginit_inv s h) evs i b0 b hb0 hb
+    rw [(ginit_bins s i b0 hb0).2.2, Nat.zero_add] at hp
+    rw [hp]
+    have hi : i < s.links.length := by
+      have := (List.getElem?_eq_some_iff.1 hb0).1
+      rw [(ginit_inv s h).len] at this; exact this
+    exact C01_probe_rate s h.nodup evs i hi
+
+/-- **Nothing is filed under `lost` without a cause.**  Every entry `(k, x)` of a link's lost bin at the
+end of a run names an event of the run (`evs[k]`), and that event, applied to the state the run had
+reached after its first `k` events, discarded the link's queue for one of the four admissible reasons
+(`LossCause`, spelled out in `C01_loss_cause_def`: failed threshold send + `mark_for_recovery`, failed
+periodic send, REG3 / REG_ERR on this link, housekeeping reconnect). -/
+theorem C01_lost_has_cause_run (s : Sys F) (h : Inv s) (evs : List Ev) (i : Nat) (b : Bins)
+    (hb : (runG (ginit s) evs).bins[i]? = some b) :
+    ∀ kx ∈ b.lost, ∃ ev l l', evs[kx.1]? = some ev ∧
+      (run s (evs.take kx.1)).1.links[i]? = some l ∧
+      (step (run s (evs.take kx.1)).1 ev).1.links[i]? = some l' ∧
+      LossCause (run s (evs.take kx.1)).1 ev i l l' := by
+  obtain ⟨b0, hb0⟩ := runG_bins_get _ _ _ _ hb
+  obtain ⟨extra, e1, e2⟩ := runG_lost (ginit s) (ginit_inv s h) evs i b0 b hb0 hb
+  rw [(ginit_bins s i b0 hb0).2.1, List.nil_append] at e1
+  intro kx hkx
+  rw [e1] at hkx
+  obtain ⟨k, ev, l, l', q1, q2, q3, q4, q5⟩ := e2 kx hkx
+  have hk : kx.1 = k := by rw [q1]; simp [ginit]
+  rw [hk]
+  exact ⟨ev, l, l', q2, q3, q4, q5⟩
+
+section ghostExamples
+
+/-- The run of the earlier example (data, control, flush tick) from `exSys`, instrumented. -/
+def exG1 : G Int := @runG Int fixScalar (ginit exSys) [.client 5000 exData, .client 5001 exCtl, .flush 5010]
+
+/-- Both datagrams are accepted (tags 0 and 1); link 0 sent the two unique copies in acceptance order, link 1
+(stall-gated and connected at enqueue time) sent the one probe copy of tag 0; each tag has exactly one
+unique copy; nothing dropped, nothing lost.  Instance of `C01_ghost_projects`, `C01_exactly_once_run`. -/
+example :
+    @Inv Int exSys ∧
+    exG1.accepted = [(0, exData), (1, exCtl)] ∧ exG1.next = 2 ∧
+    (exG1.bins.map fun b => b.wire.map fun x => (x.tag, x.kind, x.gated, x.estab, x.elig)) =
+      [[(0, .unique, false, true, true), (1, .unique, false, true, true)], [(0, .probe, true, true, false)]] := by
+  refine ⟨⟨by decide, by decide⟩, ?_⟩
+  decide +kernel
+
+example :
+    (exG1.bins.map fun b => b.wire.map (·.bytes)) = [[exData, exCtl], [exData]] ∧
+    (exG1.bins.map fun b => (b.queued, b.lost)) = [([], []), ([], [])] ∧
+    ucount 0 exG1 = 1 ∧ ucount 1 exG1 = 1 ∧ exG1.dropped = [] ∧ (exG1.bins.map (·.probes)) = [0, 1] := by
+  decide +kernel
+
+/-- Failure injection on conn id 1 consumed by the periodic flush (event index 2): the unique copy of
+tag 0 is in link 0's LOST bin, stamped with event index 2; the count is still exactly one; link 1 sent its
+probe copy.  Instance of `C01_lost_has_cause_run` (`LossCause … (.flush 5010)` = `1 ∈ failNext`). -/
+def exG2 : G Int := @runG Int fixScalar (ginit exSys) [.failNext 1, .client 5000 exData, .flush 5010]
+
+example :
+    exG2.accepted = [(0, exData)] ∧
+    (exG2.bins.map fun b => (b.wire.map (·.tag), b.queued.map (·.tag), b.lost.map fun kx => (kx.1, kx.2.tag, kx.2.kind))) =
+      [([], [], [(2, 0, .unique)]), ([0], [], [])] ∧
+    ucount 0 exG2 = 1 ∧
+    (@run Int fixScalar exSys [.failNext 1, .client 5000 exData]).1.failNext = [1] := by
+  decide +kernel
+
+/-- No link can be chosen (both disconnected): the accepted datagram is filed under `dropped`, and that is
+its one unique copy. -/
+def exG3 : G Int :=
+  @runG Int fixScalar (ginit
+      { exSys with links := [{ exLinkA with core := { exLinkA.core with connected := false } },
+                             { exLinkB with core := { exLinkB.core with connected := false } }] })
+    [.client 5000 exData]
+
+example :
+    exG3.accepted = [(0, exData)] ∧ exG3.dropped = [(0, exData)] ∧ ucount 0 exG3 = 1 ∧
+    (exG3.bins.map (·.all)) = [[], []] := by
+  decide +kernel
+
+/-- A state with datagrams already queued (two on link 0, one on link 1): `ginit` gives them tags 0, 1, 2;
+the next client datagram gets tag 3 and the flush puts link 0's three datagrams on the wire in tag order. -/
+def exG4 : G Int :=
+  @runG Int fixScalar (ginit
+      { exSys with links := [{ exLinkA with queue := [(exCtl, none, 4000), (exCtl, none, 4001)] },
+                             { exLinkB with queue := [(exCtl, none, 4002)] }] })
+    [.client 5000 exCtl, .flush 5010]
+
+example :
+    exG4.accepted.map (·.1) = [0, 1, 2, 3] ∧
+    (exG4.bins.map fun b => b.wire.map (·.tag)) = [[0, 1, 3], [2]] ∧
+    ucount 0 exG4 = 1 ∧ ucount 1 exG4 = 1 ∧ ucount 2 exG4 = 1 ∧ ucount 3 exG4 = 1 := by
+  decide +kernel
+
+/-- A 2-byte REG3 (0x9202) arriving on the socket of the LIVE link 0 (a duplicated or late handshake reply)
+while a client datagram is queued there: `clear_pre_registration_state` runs unconditionally — the queued
+datagram is discarded (lost bin, event index 1, cause = the `uplink` clause of `LossCause`), the 10 packets
+in flight are forgotten and the link is back in `warming`.  The count is still exactly one. -/
+def exG5 : G Int :=
+  @runG Int fixScalar (ginit exSys) [.client 5000 exCtl, .uplink 5001 1 [0x92, 0x02], .flush 5010]
+
+example :
+    (exG5.bins.map fun b => (b.wire.map (·.tag), b.queued.map (·.tag), b.lost.map fun kx => (kx.1, kx.2.tag))) =
+      [([], [], [(1, 0)]), ([], [], [])] ∧
+    ucount 0 exG5 = 1 ∧
+    (exSys.links.map fun l => (decide (l.core.phase = .live), l.core.inFlight)) = [(true, 10), (true, 40)] ∧
+    (exG5.sys.links.map fun l => (decide (l.core.phase = .warming 0 5001), l.core.inFlight)) =
+      [(true, 0), (false, 40)] := by
+  decide +kernel
+
+end ghostExamples
 
 end Srtla.Props.C01
